@@ -104,6 +104,79 @@ where
     }));
 }
 
+/// plain `{}` `{:?}` `{:o}` `{:e}` `{:E}` (specification 0, no width) of one value: the cheap evaluator of the length sweep
+fn eval_plain<T: Int>(c: &Pat, obs: &mut Obs) -> Result<(), String> {
+    let x: T = ld(c);
+    let z = x.z();
+    let nums = Numerals::new(&z, T::W as u64);
+    obs.nt_if(nums.dec.len() >= 3);
+    obs.label("numeral-length sweep (10^k - 1, 10^k, 10^k + 1, 2^b - 1, 2^(b-1))");
+    for tr in [TRAITS[0], TRAITS[1], TRAITS[3], TRAITS[6], TRAITS[7]] {
+        let expected = nums.model(tr, 0, 0);
+        let got = outcome(|| fmt_any(&x, tr, 0, 0));
+        vlib::runner::count_cmp(1);
+        if got != Outcome::Returned(expected.clone()) {
+            return Err(format!("{:?} (plain): expected {:?}, observed {:?}", tr, expected, got));
+        }
+    }
+    obs.note(|| format!("x={:?}: Display {:?}", z, nums.dec));
+    Ok(())
+}
+
+/// NUMERAL-LENGTH SWEEP (see C11): decimal text is produced through a length that depends on the
+/// bit length; 10^k - 1, 10^k, 10^k + 1 and the extreme values of every bit length
+fn length_values(sh: Shape, signed: bool, full: bool) -> Vec<Pat> {
+    let w = sh.bits() as u64;
+    let wide = w > 1100 && !full;
+    let maxbits = if signed { w - 1 } else { w };
+    let wrap = |z: &Z| Pat(z.to_le_wrapped(sh.bytes));
+    let mut out = Vec::new();
+    let ten = Z::from_i64(10);
+    let kmax = (maxbits as f64 * 0.30103) as u32 + 1;
+    let stride = if wide { (kmax / 100).max(1) } else { 1 };
+    let (mut p, mut k) = (Z::one(), 0u32);
+    while p.bit_len() <= maxbits {
+        if k % stride == 0 || k + 4 >= kmax {
+            for e in [-1i64, 0, 1] {
+                let v = p.add_i(e);
+                if v.bit_len() <= maxbits {
+                    out.push(wrap(&v));
+                    if signed {
+                        out.push(wrap(&v.neg()));
+                    }
+                }
+            }
+        }
+        p = p.mul(&ten);
+        k += 1;
+    }
+    let bstride = if wide { 53 } else { 1 };
+    for b in (1..=maxbits).filter(|b| b % bstride == 0 || *b + 3 >= maxbits) {
+        out.push(wrap(&Z::pow2(b).add_i(-1)));
+        out.push(wrap(&Z::pow2(b - 1)));
+        if signed {
+            out.push(wrap(&Z::pow2(b).add_i(-1).neg()));
+        }
+    }
+    out
+}
+
+fn sweep_jobs<U, I>(jobs: &mut Vec<Job>)
+where
+    U: UInt + Int<I = I>,
+    I: SInt + Int<U = U>,
+{
+    let sh: Shape = U::shape();
+    jobs.push(Job::new(job_name::<U>("length_sweep/u"), move |ctx| {
+        let full = ctx.tier() == vlib::Tier::Thorough;
+        ctx.enumerate("u_len", "10^k - 1, 10^k, 10^k + 1 for the exponents k and 2^b - 1, 2^(b-1) for the bit lengths b: plain Display, Debug, Octal, LowerExp, UpperExp", length_values(sh, false, full).into_iter(), eval_plain::<U>);
+    }));
+    jobs.push(Job::new(job_name::<U>("length_sweep/i"), move |ctx| {
+        let full = ctx.tier() == vlib::Tier::Thorough;
+        ctx.enumerate("i_len", "+-(10^k - 1), +-10^k, +-(10^k + 1) and +-(2^b - 1), 2^(b-1): plain Display, Debug, Octal, LowerExp, UpperExp", length_values(sh, true, full).into_iter(), eval_plain::<I>);
+    }));
+}
+
 fn exhaustive(jobs: &mut Vec<Job>) {
     type U8 = bnum::BUintD8<1>;
     type I8 = bnum::BIntD8<1>;
@@ -119,6 +192,7 @@ fn main() {
     macro_rules! add {
         ($U:ty, $I:ty) => {
             jobs_for::<$U, $I>(&mut jobs);
+            sweep_jobs::<$U, $I>(&mut jobs);
         };
     }
     for_all_cfgs!(add);
@@ -126,7 +200,7 @@ fn main() {
     runner::main(
         Property {
             id: "C12",
-            rule: "Format specifications are literals, so all 160 combinations of fill/alignment in {none, <, ^, >, *<, *^, *>, 0<, e-acute ^, #>} x '+' x '#' x '0' x width in {none, runtime} are enumerated by a generated table and applied through a wrapper Display type that forwards the same Formatter to the chosen trait of the value; every case evaluates all 8 traits x 20 specifications (specification index = base + 8k, base cycled, so 8 cases cover the whole table) with runtime widths {0, 1, len-1, len, len+1, len+2, len+3, 40, 255, uniform <= 255}. Values: structured patterns, digit vectors with many zero / small interior digits, powers of ten and multiples of large powers of ten, boundary values, negatives. Oracle: at 8/16/32/64/128 bits the same specification applied to the primitive holding the same value (byte-identical text), at every width the formatter model (pad_integral + reference numerals / two's-complement pattern / d.ddde<k>); the model is compared with the primitives at start-up (and in-line at primitive widths, where a mismatch is a harness error). NON-TRIVIAL: every case (each applies 160 flag/trait combinations, most with padding or flags). distinct = distinct (profile, job, value, spec base, width selector) by 64-bit hash. 8-bit configuration: all values x all specifications x all traits.",
+            rule: "Format specifications are literals, so all 160 combinations of fill/alignment in {none, <, ^, >, *<, *^, *>, 0<, e-acute ^, #>} x '+' x '#' x '0' x width in {none, runtime} are enumerated by a generated table and applied through a wrapper Display type that forwards the same Formatter to the chosen trait of the value; every case evaluates all 8 traits x 20 specifications (specification index = base + 8k, base cycled, so 8 cases cover the whole table) with runtime widths {0, 1, len-1, len, len+1, len+2, len+3, 40, 255, uniform <= 255}. Values: structured patterns, digit vectors with many zero / small interior digits, powers of ten and multiples of large powers of ten, boundary values, negatives. Oracle: at 8/16/32/64/128 bits the same specification applied to the primitive holding the same value (byte-identical text), at every width the formatter model (pad_integral + reference numerals / two's-complement pattern / d.ddde<k>); the model is compared with the primitives at start-up (and in-line at primitive widths, where a mismatch is a harness error). NON-TRIVIAL: every case (each applies 160 flag/trait combinations, most with padding or flags). distinct = distinct (profile, job, value, spec base, width selector) by 64-bit hash. 8-bit configuration: all values x all specifications x all traits. A deterministic NUMERAL-LENGTH SWEEP per configuration adds 10^k - 1, 10^k, 10^k + 1 (both signs for signed types) for the decimal exponents k and 2^b - 1, 2^(b-1) for the bit lengths b with the plain specification of Display, Debug, Octal, LowerExp and UpperExp - all exponents and bit lengths on types up to 1088 bits, a spread selection on wider types in the quick tier, all of them in the thorough tier.",
             assumptions: &[
                 "digits()/from_digits()/to_bits()/from_bits() are the trusted observation channel",
                 "precision ({:.3}) and {:x?}/{:X?} are not among the listed flags and are not checked",
